@@ -109,6 +109,11 @@ fn recognize_http(method: &str, mut path: &str) -> Result<Proxy, anyhow::Error> 
     }
 }
 
+#[cfg(feature = "verif")]
+pub fn verif_recognize_http(method: &str, path: &str) -> Result<Proxy, anyhow::Error> {
+    recognize_http(method, path)
+}
+
 #[cfg(test)]
 mod test {
     use super::Proxy;
